@@ -1,4 +1,5 @@
-from . import p_state, p_docopt
+from . import p_state, p_docopt, p_engine
 PROPS = {}
 PROPS.update(p_state.PROPS)
 PROPS.update(p_docopt.PROPS)
+PROPS.update(p_engine.PROPS)
